@@ -26,8 +26,11 @@ func ShowFields(ctx context.Context, proc *query.Processor, filename string) err
 			return query.NewFileNotExistError(filePath)
 		}
 
-		q := statements[0].(parser.SelectQuery)
-		filePath = q.SelectEntity.(parser.SelectEntity).FromClause.(parser.FromClause).Tables[0].(parser.Table).Object
+		object, ok := tableObject(statements)
+		if !ok {
+			return query.NewFileNotExistError(filePath)
+		}
+		filePath = object
 		filePath.ClearBaseExpr()
 	}
 
@@ -41,4 +44,33 @@ func ShowFields(ctx context.Context, proc *query.Processor, filename string) err
 	execCtx := context.WithValue(ctx, "CallFromSubcommand", true)
 	_, err = proc.Execute(execCtx, statements)
 	return err
+}
+
+// tableObject returns the first table object of a parsed "SELECT 1 FROM <argument>" when it is one that
+// SHOW FIELDS accepts: an identifier, a URL, a table function, a format specified function or STDIN.
+func tableObject(statements []parser.Statement) (parser.QueryExpression, bool) {
+	if len(statements) < 1 {
+		return nil, false
+	}
+	q, ok := statements[0].(parser.SelectQuery)
+	if !ok {
+		return nil, false
+	}
+	entity, ok := q.SelectEntity.(parser.SelectEntity)
+	if !ok {
+		return nil, false
+	}
+	from, ok := entity.FromClause.(parser.FromClause)
+	if !ok || len(from.Tables) < 1 {
+		return nil, false
+	}
+	table, ok := from.Tables[0].(parser.Table)
+	if !ok {
+		return nil, false
+	}
+	switch table.Object.(type) {
+	case parser.Identifier, parser.Url, parser.TableFunction, parser.FormatSpecifiedFunction, parser.Stdin:
+		return table.Object, true
+	}
+	return nil, false
 }
